@@ -1,6 +1,6 @@
 //go:build verif
 
-package main
+package ledger
 
 import (
 	"encoding/json"
@@ -10,6 +10,8 @@ import (
 	"path/filepath"
 	"sort"
 	"strings"
+
+	"verifharness/core"
 
 	"github.com/Nextdoor/pg-bifrost.git/transport/progress"
 	"github.com/cevaris/ordered_map"
@@ -47,9 +49,9 @@ type lobs struct {
 func (o lop) gallina() string {
 	switch o.Op {
 	case "S":
-		return fmt.Sprintf("OSeen %s %s %s %s", gStr(o.T), gStr(o.K), gZ(o.N), gN(o.C))
+		return fmt.Sprintf("OSeen %s %s %s %s", core.GStr(o.T), core.GStr(o.K), core.GZ(o.N), core.GN(o.C))
 	case "W":
-		return fmt.Sprintf("OWritten %s %s %s", gStr(o.T), gStr(o.K), gZ(o.N))
+		return fmt.Sprintf("OWritten %s %s %s", core.GStr(o.T), core.GStr(o.K), core.GZ(o.N))
 	}
 	return "OEmit"
 }
@@ -108,15 +110,15 @@ func ledgerCaseGallina(c lcase, obs []lobs, entries []progress.LedgerEntry, idx 
 		r := "RNone"
 		switch o.res {
 		case "emit":
-			r = "REmit " + gN(o.emit)
+			r = "REmit " + core.GN(o.emit)
 		case "error":
 			r = "RError"
 		}
-		ob[i] = gTuple(r, gStrList(o.keys))
+		ob[i] = core.GTuple(r, core.GStrList(o.keys))
 	}
 	es := make([]string, len(entries))
 	for i, e := range entries {
-		es[i] = fmt.Sprintf("mkEntry %s %s %s %s %s", gStr(e.Transaction), gStr(e.TimeBasedKey), gN(e.CommitWalStart), gZ(int64(e.Count)), gZ(int64(e.TotalMsgs)))
+		es[i] = fmt.Sprintf("mkEntry %s %s %s %s %s", core.GStr(e.Transaction), core.GStr(e.TimeBasedKey), core.GN(e.CommitWalStart), core.GZ(int64(e.Count)), core.GZ(int64(e.TotalMsgs)))
 	}
 	keys := []string{}
 	for k := range idx {
@@ -125,9 +127,9 @@ func ledgerCaseGallina(c lcase, obs []lobs, entries []progress.LedgerEntry, idx 
 	sort.Strings(keys)
 	ix := make([]string, len(keys))
 	for i, k := range keys {
-		ix[i] = gTuple(gStr(k), gStr(idx[k]))
+		ix[i] = core.GTuple(core.GStr(k), core.GStr(idx[k]))
 	}
-	return gTuple(gList(ops), gList(ob), gList(es), gList(ix))
+	return core.GTuple(core.GList(ops), core.GList(ob), core.GList(es), core.GList(ix))
 }
 
 // ---- monitors (ledger layer of C01 and C02) ----
@@ -161,11 +163,11 @@ func hasStale(c lcase) bool {
 	return false
 }
 
-func ledgerMonitor(c lcase, obs []lobs, entries []progress.LedgerEntry, idx map[string]string) []Violation {
+func ledgerMonitor(c lcase, obs []lobs, entries []progress.LedgerEntry, idx map[string]string) []core.Violation {
 	if len(c.Truth) == 0 {
 		return nil
 	}
-	var vs []Violation
+	var vs []core.Violation
 	sig := "no-stale-completion"
 	if hasStale(c) {
 		sig = "stale-written-after-supersession"
@@ -177,7 +179,7 @@ func ledgerMonitor(c lcase, obs []lobs, entries []progress.LedgerEntry, idx map[
 		op := c.Ops[i]
 		if o.res == "error" {
 			errored = true
-			vs = append(vs, Violation{Property: "C02", Signature: sig + "/tracker-error",
+			vs = append(vs, core.Violation{Property: "C02", Signature: sig + "/tracker-error",
 				What: fmt.Sprintf("updateSeen returned an error at op %d of a pipeline-like history (the tracker panics and the process stops)", i), Case: c})
 			break
 		}
@@ -199,7 +201,7 @@ func ledgerMonitor(c lcase, obs []lobs, entries []progress.LedgerEntry, idx map[
 					}
 				}
 				if !done {
-					vs = append(vs, Violation{Property: "C01", Signature: sig,
+					vs = append(vs, core.Violation{Property: "C01", Signature: sig,
 						What: fmt.Sprintf("ledger emitted %d at op %d while transaction %s (commit %d, %d changes) has no delivery whose changes were all reported written", o.emit, i, t.T, t.Commit, t.Total), Case: c})
 					break
 				}
@@ -216,7 +218,7 @@ func ledgerMonitor(c lcase, obs []lobs, entries []progress.LedgerEntry, idx map[
 			}
 		}
 		if len(entries) != 0 || len(idx) != 0 || maxEmit != lastCommit {
-			vs = append(vs, Violation{Property: "C02", Signature: sig,
+			vs = append(vs, core.Violation{Property: "C02", Signature: sig,
 				What: fmt.Sprintf("after a complete history the ledger holds %d entries / %d index rows and the highest emitted position is %d, expected empty and %d", len(entries), len(idx), maxEmit, lastCommit), Case: c})
 		}
 	}
@@ -371,7 +373,7 @@ func loadLedgerCorpus(dir string) []lcase {
 }
 
 func init() {
-	register(component{name: "LEDGER", run: func(rng *rand.Rand, n int, corpusDir string, rep *Report) string {
+	core.Register(core.Component{Name: "LEDGER", Replay: replayLedger, Run: func(rng *rand.Rand, n int, corpusDir string, rep *core.Report) string {
 		cases := loadLedgerCorpus(corpusDir)
 		for i := 0; i < n; i++ {
 			switch r := rng.Intn(20); {
@@ -393,10 +395,10 @@ func init() {
 				sb.WriteString(";\n")
 			}
 			sb.WriteString(ledgerCaseGallina(c, obs, entries, idx))
-			rep.CaseIndex = append(rep.CaseIndex, rawJSON(c))
+			rep.CaseIndex = append(rep.CaseIndex, core.RawJSON(c))
 			rep.Evaluations++
-			bump(rep, "mode:"+strings.SplitN(c.Mode, ":", 2)[0])
-			bump(rep, fmt.Sprintf("ops:%d-%d", len(c.Ops)/10*10, len(c.Ops)/10*10+9))
+			core.Bump(rep, "mode:"+strings.SplitN(c.Mode, ":", 2)[0])
+			core.Bump(rep, fmt.Sprintf("ops:%d-%d", len(c.Ops)/10*10, len(c.Ops)/10*10+9))
 			emits, errs := 0, 0
 			for _, o := range obs {
 				if o.res == "emit" {
@@ -407,13 +409,13 @@ func init() {
 				}
 			}
 			if errs > 0 {
-				bump(rep, "with-error")
+				core.Bump(rep, "with-error")
 			}
 			if emits > 0 {
-				bump(rep, "with-emission")
+				core.Bump(rep, "with-emission")
 			}
 			if hasStale(c) {
-				bump(rep, "with-stale-completion")
+				core.Bump(rep, "with-stale-completion")
 			}
 			key := fmt.Sprint(c.Ops)
 			if (emits > 0 || errs > 0) && len(c.Ops) >= 4 && !seen[key] {
@@ -428,4 +430,25 @@ func init() {
 		sb.WriteString("\n].\nDefinition M := Eval vm_compute in mismatches lcase_ok cases.\nPrint M.\n")
 		return sb.String()
 	}})
+}
+
+func replayLedger(cs json.RawMessage) string {
+	var c lcase
+	if err := json.Unmarshal(cs, &c); err != nil {
+		return "bad case: " + err.Error()
+	}
+	obs, entries, idx := runLedgerImpl(c.Ops)
+	var sb strings.Builder
+	for i, o := range obs {
+		fmt.Fprintf(&sb, "op %d %+v -> %s", i, c.Ops[i], o.res)
+		if o.res == "emit" {
+			fmt.Fprintf(&sb, " %d", o.emit)
+		}
+		fmt.Fprintf(&sb, "  ledger keys %v\n", o.keys)
+	}
+	fmt.Fprintf(&sb, "final entries %+v index %v\n", entries, idx)
+	for _, v := range ledgerMonitor(c, obs, entries, idx) {
+		fmt.Fprintf(&sb, "MONITOR %s [%s]: %s\n", v.Property, v.Signature, v.What)
+	}
+	return sb.String()
 }
